@@ -407,8 +407,8 @@ def c02_h(ctx: Ctx):
 @rule("C02-i")
 def c02_i(ctx: Ctx):
     """Whole-module cross-checks: no exchanged positional arguments in resolved internal calls; diagnostics (logging / warnings) do no work."""
-    from .lints import swapped_arguments, pure_logging
-    return swapped_arguments(ctx, "C02-i", ['signac.job', 'signac.project']) + pure_logging(ctx, "C02-i", ['signac.job', 'signac.project', 'signac.__main__'])
+    from .lints import swapped_arguments, pure_logging, handler_order
+    return handler_order(ctx, "C02-i", ["signac.__main__", "signac.project", "signac.job"]) + swapped_arguments(ctx, "C02-i", ['signac.job', 'signac.project']) + pure_logging(ctx, "C02-i", ['signac.job', 'signac.project', 'signac.__main__'])
 
 
 RULES = [c02_a, c02_b, c02_c, c02_d, c02_e, c02_f, c02_g, c02_h, c02_i]
